@@ -35,7 +35,7 @@ theorem play_by_call (f : Nat) (c : Contract) (s : PState) (card : Card) (p : Se
   rw [callF_def]
   simp only [m_PlayingPhase_play_card_by_player, bindParams, Option.map]
   have h1 := check_active_call (f+48) n_PlayingPhase [] c s p
-  have h2 := play_card_call (f+8) n_PlayingPhase ppclass_base [] c s card hwf
+  have h2 := play_card_call (f+8) n_PlayingPhase ppclass_base [] c s card (fun _ => hwf)
   simp only [ppObj, baseFields, List.cons_append, List.nil_append] at h1 h2 ⊢
   by_cases h : p = s.active
   · simp only [h, ne_eq, not_true_eq_false, if_false] at h1
@@ -65,7 +65,7 @@ theorem with_hands_play_call (f : Nat) (c : Contract) (w : WithHands) (card : Ca
   simp only at hwf
   have h1 := check_active_call (f+48) n_PlayingPhaseWithHands [(n_hands, .dict (handsKvs hands))] c s p
   have h2 := play_card_call (f+8) n_PlayingPhaseWithHands ppclass_withHands
-    [(n_hands, .dict (handsKvs (fun q => if q = p then (hands p).erase card else hands q)))] c s card hwf
+    [(n_hands, .dict (handsKvs (fun q => if q = p then (hands p).erase card else hands q)))] c s card (fun _ => hwf)
   simp only [encWithHands, ppObj, baseFields, List.cons_append, List.nil_append, encCards] at h1 h2 ⊢
   by_cases h : p = s.active
   · subst h
